@@ -16,6 +16,10 @@
         AddTypedUse ---@type <declared name, applied / array / optional>  local v = nil ; then a use of v
         AddUse      a statement using an expression (member chains, calls, index, arithmetic, metatable ...)
         Corrupt     damages the annotation text of an earlier item (malformed generics, unbalanced brackets)
+        AddAliasSuperCycle  ---@alias X <body mentioning C>  +  ---@class C: X   (inheritance through an alias of the
+                    class itself: plain / optional / union / intersection / generic alias, optionally via a second
+                    class), then a table literal typed as C with fields C does not declare, then a field access
+        AddTableLiteral     ---@type T  local v = { <declared and undeclared fields: closures, values, nested> }
 
    Type terms are bounded-depth terms over the declared names, including deliberately malformed ones.
    The items are spread over two files (item.file) and the run configuration (Lua level, strict mode) is part
@@ -67,7 +71,9 @@ SuperChoices == {<<>>} \cup {<<t>> : t \in Types1} \cup {<<N(c), N(d)>> : c \in 
 
 Exprs == {"v", "v.f", "v.f.f", "v.f.g.f", "v:m(w)", "fa(v)", "fa(fa(v))", "fb(v, w)", "v[1]", "v[w]", "v .. w", "v + w",
           "#v", "v == w and v or w", "{ v, f = w }", "setmetatable({}, { __index = v })",
-          "function(p) return p.f end", "v()", "v.f()", "A", "A.f", "G.f(v)", "(v)", "-v", "not v", "v.m"}
+          "function(p) return p.f end", "v()", "v.f()", "A", "A.f", "G.f(v)", "(v)", "-v", "not v", "v.m",
+          \* accesses of a field no declaration mentions (the lookup walks the super types to the end)
+          "v.zz", "v.zz.f", "v:zz(w)", "v[\"zz\"]", "rawget(v, \"zz\")"}
 
 Item(k, f, n, g, t, u, e) == [k |-> k, file |-> f, n |-> n, g |-> g, t |-> t, u |-> u, e |-> e]
 NoT == N("nil")
@@ -137,10 +143,39 @@ AddTypedUse == \E f \in Pick(FilesOf), v \in Pick(Vars), n \in Pick(Classes \cup
                                                  [] OTHER -> Un("app", n, N(n))>>, NoT, "nil"),
                       Item("use", f, v, how, <<>>, NoT, e) @@ [w |-> v])
 
+\* ---- inheritance through an alias of the class itself (strengthened after seeded review) ----------------------
+\* The analyzer filters direct alias cycles and class-to-class super cycles when it builds the index; a cycle that
+\* passes through an alias (alias a = <body mentioning c>, class c : a) is invisible to both filters, so every walk
+\* over super types / alias origins has to carry its own visited set across the alias hop.
+AddSeq(items) == /\ phase = "gen" /\ Len(prog) + Len(items) <= MaxItems
+                 /\ prog' = prog \o items /\ UNCHANGED <<level, strict, phase>>
+AliasBodies(c, d) == {N(c), Un("opt", "", N(c)), Bin("union", N(c), N(d)), Bin("union", N("nil"), N(c)),
+                      Bin("inter", N(c), N(d)), Un("app", c, N("T")), Un("arr", "", N(c))}
+\* table literals: which fields the constructor assigns (f, g may be declared by an AddField; zz, yy never are)
+LitShapes == {"closure", "values", "nested", "method", "index", "mixed"}
+TabLit(f, v, t, shape) == Item("tablit", f, v, shape, <<t>>, NoT, "")
+UndeclUses == {"v.zz", "v.zz.f", "v:zz(w)", "v[\"zz\"]", "rawget(v, \"zz\")", "v.f", "v.f.f"}
+AddAliasSuperCycle ==
+  \E f \in Pick(FilesOf), f2 \in Pick(FilesOf), a \in Pick(Aliases), c \in Pick(Classes), d \in Pick(Classes),
+     g \in Pick({"", "T"}), via \in Pick(BOOLEAN), withField \in Pick(BOOLEAN), v \in Pick(Vars),
+     shape \in Pick(LitShapes), e \in Pick(UndeclUses), how \in Pick({"local", "print", "if", "for"}) :
+  \E body \in Pick(AliasBodies(c, d)) :
+    LET aref == IF g = "" THEN N(a) ELSE Un("app", a, N("integer"))
+        mid == IF via /\ d # c THEN <<Item("class", f2, d, "", <<aref>>, NoT, ""), Item("class", f2, c, "", <<N(d)>>, NoT, "")>>
+               ELSE <<Item("class", f2, c, "", <<aref>>, NoT, "")>>
+        fld == IF withField THEN <<Item("field", f2, c, "f", <<Bin("fun", N("integer"), N("integer"))>>, NoT, "")>> ELSE <<>>
+    IN AddSeq(<<Item("alias", f, a, g, <<body>>, NoT, "")>> \o mid \o fld
+              \o <<TabLit(f2, v, N(c), shape), Item("use", f2, v, how, <<>>, NoT, e) @@ [w |-> v]>>)
+\* a table literal typed by any declared name (applied / optional), with declared and undeclared fields
+AddTableLiteral == \E f \in Pick(FilesOf), v \in Pick(Vars), n \in Pick(Classes \cup Aliases),
+                      tshape \in Pick({"name", "app", "opt"}), shape \in Pick(LitShapes) :
+                     Add(TabLit(f, v, CASE tshape = "name" -> N(n) [] tshape = "app" -> Un("app", n, N("integer"))
+                                        [] OTHER -> Un("opt", "", N(n)), shape))
+
 Finish == /\ phase = "gen" /\ Len(prog) >= 4
           /\ phase' = "done" /\ UNCHANGED <<prog, level, strict>>
 
-Next == AddTypedUse \/ AddCyclicSupers \/ AddRecursiveAlias \/ AddGenericCycle \/ AddOverloads \/ AddClass \/ AddAlias \/ AddField \/ AddFunc \/ AddOperator \/ AddLocal \/ AddCast \/ AddUse \/ Corrupt \/ Finish
+Next == AddAliasSuperCycle \/ AddTableLiteral \/ AddTypedUse \/ AddCyclicSupers \/ AddRecursiveAlias \/ AddGenericCycle \/ AddOverloads \/ AddClass \/ AddAlias \/ AddField \/ AddFunc \/ AddOperator \/ AddLocal \/ AddCast \/ AddUse \/ Corrupt \/ Finish
 Spec == Init /\ [][Next]_vars
 
 \* ---- generator invariants -------------------------------------------------------------------------------
@@ -156,6 +191,10 @@ Sub(t) == IF t.op \in {"name", "none"} THEN {} ELSE {t.b} \cup (IF t.c = None TH
 Hits(t, n) == (t.op = "name" /\ t.a = n) \/ (t.op = "app" /\ t.a = n)
 Mentions(t, n) == Hits(t, n) \/ \E s \in Sub(t) : Hits(s, n) \/ \E r \in Sub(s) : Hits(r, n)
 RecursiveAlias(p) == \E i \in DOMAIN p : p[i].k = "alias" /\ Mentions(p[i].t[1], p[i].n)
+\* a class one of whose supers names (or applies) an alias whose body mentions that class
+AliasSuper(p) == \E i, j \in DOMAIN p : /\ p[i].k = "class" /\ p[j].k = "alias"
+                                        /\ \E s \in DOMAIN p[i].t : Hits(p[i].t[s], p[j].n)
+                                        /\ \E q \in DOMAIN p : p[q].k = "class" /\ Mentions(p[j].t[1], p[q].n)
 Malformed(p) == \E i \in DOMAIN p : \/ p[i].k = "corrupt"
                                     \/ p[i].g = "<"
                                     \/ \E j \in DOMAIN p[i].t : p[i].t[j].op = "bad"
@@ -164,5 +203,6 @@ Emit == phase = "done" =>
           PrintT(<<"CASE", ToJson([level |-> level, strict |-> strict, items |-> prog,
                                    feat |-> [selfsuper |-> SelfSuper(prog), mutualsuper |-> MutualSuper(prog),
                                              recalias |-> RecursiveAlias(prog), malformed |-> Malformed(prog),
+                                             aliassuper |-> AliasSuper(prog), tablit |-> "tablit" \in Kinds(prog),
                                              kinds |-> Cardinality(Kinds(prog))]])>>)
 =============================================================================
